@@ -13,7 +13,8 @@ from .common import sample
 LEVEL = "model_checking"
 
 FRAGS = ["a", "bb + 1", '"s t"', '"u  v"', 'f("a b", 2)', "'it\"s ok'", "long_identifier_" + "x" * 24,
-         'g(x,"c d")', "-1", "x[0]", '"x" "y z"', "h('p  q' ,1)", "'so quickly!'", '"a # b"']
+         'g(x,"c d")', "-1", "x[0]", '"x" "y z"', "h('p  q' ,1)", "'so quickly!'", '"a # b"', "trim(d) // '\\' // trim(f)"]
+FORTRAN_ONLY = {len(FRAGS)}            # a backslash is an ordinary character in a Fortran literal ('\' is a complete string)
 TEMPLATES = [("r = [%s]", ", "), ("r = %s", " + "), ("call(%s)", ", ")]
 
 
@@ -102,6 +103,8 @@ def run(chk):
                 combos = rng.sample(combos, 2)
             for w, lv in combos:
                 for target in ("python", "fortran"):
+                    if target == "python" and FORTRAN_ONLY & set(idxs):
+                        continue
                     out, err = wrap_real(target, line, lv, w)
                     cases.append({"target": target, "line": list(line), "text": line, "level": lv, "indent": 4,
                                   "width": w, "out": [list(o) for o in out], "outtext": out, "err": err,
@@ -116,6 +119,8 @@ def run(chk):
                 continue
             line = "result_variable_with_a_long_name_%d = %s" % (tmpl, line) if tmpl == 2 else line
             for target in ("python", "fortran"):
+                if target == "python" and FORTRAN_ONLY & set(idxs):
+                    continue
                 lv0 = rng.choice([0, 1, 3])
                 out, w, ind, lv, err = emit_real(target, line, lv0)
                 cases.append({"target": target, "line": list(line), "text": line, "level": lv, "indent": ind,
